@@ -5,6 +5,7 @@ import (
 	"go/constant"
 	"go/token"
 	"go/types"
+	"sort"
 	"strings"
 	"verifsa/internal/load"
 	"verifsa/internal/paths"
@@ -86,6 +87,21 @@ func strShape(v ssa.Value) []strPart {
 	case *ssa.BinOp:
 		if x.Op == token.ADD {
 			return append(strShape(x.X), strShape(x.Y)...)
+		}
+	case *ssa.MakeSlice:
+		// make([]byte, k) handed straight to the append: k zero octets
+		if x.Referrers() != nil {
+			n := 0
+			for _, r := range *x.Referrers() {
+				if _, isDbg := r.(*ssa.DebugRef); !isDbg {
+					n++
+				}
+			}
+			if bt, ok := x.Type().Underlying().(*types.Slice); ok && isByte(bt.Elem()) && n == 1 {
+				if l, ok := ssaLin(x.Len); ok {
+					return []strPart{{zeros: &l}}
+				}
+			}
 		}
 	case *ssa.Convert:
 		// string(make([]byte, k)) with no store into the slice
@@ -316,6 +332,7 @@ func shapeRules(c *core.Ctx) {
 			var problems []string
 			for _, p := range ps {
 				enteredWithError, stored, tested, appended := false, false, false, false
+				nAppended := 0
 				firstBranch := true
 				for _, e := range p.Events {
 					switch e.Kind {
@@ -353,7 +370,8 @@ func shapeRules(c *core.Ctx) {
 						}
 						if call, ok := e.Instr.(*ssa.Call); ok {
 							if n := calleeName(call); strings.HasSuffix(n, "ByteBuffer).WriteString") || strings.HasSuffix(n, "ByteBuffer).Write") {
-								appended = true
+								nAppended++
+								appended = nAppended == len(callsTo(wfs, bbpPath, "ByteBuffer.WriteString"))+len(callsTo(wfs, bbpPath, "ByteBuffer.Write"))
 							}
 						}
 					}
@@ -365,7 +383,7 @@ func shapeRules(c *core.Ctx) {
 					problems = append(problems, "an error-free path returns without having tested len(s) > n: a value that does not fit its slot is dropped silently instead of refused")
 				}
 				if !appended {
-					problems = append(problems, "an error-free path returns without appending the slot")
+					problems = append(problems, "an error-free path returns without appending the (whole) slot")
 				}
 			}
 			c.Decide(len(problems) == 0, rule, "packet.Writer.WriteFixedLenString#always-tested", fpos, fmt.Sprintf("%d paths: every error-free exit passed the fit test and the append", len(ps)), strings.Join(dedup(problems), "; "))
@@ -374,14 +392,29 @@ func shapeRules(c *core.Ctx) {
 		ws := callsTo(wfs, bbpPath, "ByteBuffer.WriteString")
 		wr := callsTo(wfs, bbpPath, "ByteBuffer.Write")
 		shapeOK, got := false, "no single append"
-		if len(ws)+len(wr) == 1 {
-			var arg ssa.Value
-			if len(ws) == 1 {
-				arg = ws[0].Call.Args[1]
-			} else {
-				arg = wr[0].Call.Args[1]
+		// one append of the whole slot, or the slot appended piecewise by consecutive appends each of which dominates the next
+		var appends []*ssa.Call
+		appends = append(appends, ws...)
+		appends = append(appends, wr...)
+		sort.Slice(appends, func(i, j int) bool {
+			a, b := appends[i], appends[j]
+			if a.Block() == b.Block() {
+				return instrIndex(a) < instrIndex(b)
 			}
-			parts := strShape(arg)
+			return a.Block().Dominates(b.Block())
+		})
+		chainOK := len(appends) >= 1 && len(appends) <= 3
+		for i := 0; chainOK && i+1 < len(appends); i++ {
+			a, b := appends[i], appends[i+1]
+			if !(a.Block() == b.Block() && instrIndex(a) < instrIndex(b)) && !(a.Block() != b.Block() && a.Block().Dominates(b.Block())) {
+				chainOK = false
+			}
+		}
+		if chainOK {
+			var parts []strPart
+			for _, a := range appends {
+				parts = append(parts, strShape(a.Call.Args[1])...)
+			}
 			var ss []string
 			for _, p := range parts {
 				ss = append(ss, p.String())
